@@ -4,7 +4,7 @@
 export GOFLAGS=-mod=mod GOPROXY=off GOSUMDB=off GOTOOLCHAIN=local
 cd /verif
 ids="$@"
-[ -z "$ids" ] && ids=$(ls seeded | grep -E '^C[0-9]+_[rs]?[0-9]+$')
+[ -z "$ids" ] && ids=$(ls seeded | grep -E '^C[0-9]+_[rst]?[0-9]+$')
 for id in $ids; do
   d=seeded/$id
   prop=${id%%_*}
